@@ -62,6 +62,12 @@ CLAIMS.update({
     text="Theorems C13_allowed_events (no duplicates; e listed iff a transition leaving the state carries it; order of first use), C13_events_all, C13_unknown (for both processing modes: an event bound to no transition of the current state — any undeclared name, incl. the reserved __initial__ once a state is held — changes nothing in the configuration and yields TransitionNotAllowed(event,state) or None). In the model all calling styles are `send` by construction; that the real styles (sm.send, event method, items of sm.events / sm.allowed_events, triggers bound with bind_events_to) coincide is checked by the correspondence, which also sends every attribute name of the machine (dir(StateMachine), state ids, dunders, near-miss spellings).",
     design="7 C13"),
 })
+CLAIMS.update({
+  "C08": dict(
+    technique="Lean 4 proof (mutual structural induction over the parsed tree; scanner model of re.sub) + three-way differential correspondence (library, Lean model, CPython eval) with exhaustive small-scope families",
+    text="Lean theorems (C08_eval, C08_guard_conj, C08_providers, C08_reject_early, C08_end_to_end) prove for every expression tree of any nesting, every valuation and any comparison semantics: the library's closure tree yields Python's value or failure with Python's left-to-right short-circuit read order; a transition is enabled iff every cond entry is truthy and every unless entry falsy, evaluated up to the first failing entry; unparsable text or a name without a provider is rejected at instantiation and never at event time. The operator-spelling rewrite is proved at token level and at character level for well-spaced renderings (C08_rewrite_chars_partial; CPython's tokenizer is not modelled), with witnesses for the repaired defects D8/D9/D22. Tied to /repo by running real machines on grammar-generated guard lists and diffing fired/not-fired, read order and construction exceptions against both the Lean model and CPython's own eval. Precedence itself is CPython's parser (trusted).",
+    design="7 C08"),
+})
 NOT_APPLICABLE = {}
 
 def main():
